@@ -20,6 +20,10 @@ Exploration: configuration space (K) plus, for the FFTW back-end, call histories
             Fourier integral of the piecewise constant interpolant at the documented reciprocal
             grid nodes (the formula in the docstrings of dft_preprocess_data /
             dft_postprocess_data / reciprocal_grid); in-place == out-of-place.
+            Temporaries life cycle on both operators (created on the forward one and
+            inherited, created on the inverse itself, on both, created and cleared); axes in
+            every order / counted from the end with per-axis shifts that differ (``dft`` and
+            ``grid`` likewise).
             Derived / planned objects: ``ft.inverse.inverse`` and a second ``ft.inverse`` act
             like the first ones; pyfftw: ``init_fftw_plan()`` / ``clear_fftw_plan()`` (twice) on
             fresh and on used operators do not change the values.
@@ -98,6 +102,35 @@ def _prec(dtype):
 
 def _is_real(dtype):
     return np.dtype(dtype).kind == 'f'
+
+
+def _axes(cfg):
+    """(axes as handed to odl -- any order, possibly counted from the end --, the same axes
+    normalised to 0..ndim-1 in the same order, used by the reference model)."""
+    nd = len(cfg['shape']) if 'shape' in cfg else cfg['ndim']
+    arg = [int(a) for a in cfg['axes']]
+    return arg, [a % nd for a in arg]
+
+
+def _order_tag(ax_arg, axes):
+    return ('perm' if list(axes) != sorted(axes) else 'asc') + ('-neg' if min(ax_arg) < 0 else '')
+
+
+def _orders(nd, full=False):
+    """Axes sequences that are not ascending non-negative lists: every permutation of every
+    subset of >= 2 axes (halved / per-axis options then belong to the axes in the GIVEN order),
+    and the spellings counted from the end (all entries negative, or only the first)."""
+    out = []
+    for sub in _subsets(nd):
+        perms = [list(q) for q in itertools.permutations(sub)]
+        for q in perms[1:]:
+            out.append(q)
+        picks = perms if (full or len(perms) == 1) else [perms[0], perms[-1]]
+        for q in picks:
+            out.append([a - nd for a in q])
+            if len(q) > 1 and full:
+                out.append([q[0] - nd] + q[1:])
+    return out
 
 
 def _subsets(n):
@@ -282,17 +315,18 @@ def _dft_space(shape, dtype):
 
 
 def _dft_ops(cfg):
-    shape, axes, dt = tuple(cfg['shape']), list(cfg['axes']), cfg['dtype']
+    shape, dt = tuple(cfg['shape']), cfg['dtype']
+    ax_arg, axes = _axes(cfg)
     hc, sign, impl = bool(cfg['hc']), cfg['sign'], cfg['impl']
     isign = '+' if sign == '-' else '-'
     sp = _dft_space(shape, dt)
 
     def fwd():
-        return Op(DiscreteFourierTransform(sp, axes=axes, sign=sign, halfcomplex=hc, impl=impl),
+        return Op(DiscreteFourierTransform(sp, axes=ax_arg, sign=sign, halfcomplex=hc, impl=impl),
                   _dft_site('DiscreteFourierTransform', impl, dt, hc, sign, shape, axes))
 
     def inv():
-        return Op(DiscreteFourierTransformInverse(sp, axes=axes, sign=isign, halfcomplex=hc,
+        return Op(DiscreteFourierTransformInverse(sp, axes=ax_arg, sign=isign, halfcomplex=hc,
                                                   impl=impl),
                   _dft_site('DiscreteFourierTransformInverse', impl, dt, hc, isign, shape, axes))
     return sp, fwd, inv
@@ -315,12 +349,13 @@ def _dft_inputs(shape, dt, axes, sign, hc):
 
 def _run_dft(cfg):
     acc = Acc()
-    shape, axes, dt = tuple(cfg['shape']), list(cfg['axes']), cfg['dtype']
+    shape, dt = tuple(cfg['shape']), cfg['dtype']
+    ax_arg, axes = _axes(cfg)
     hc, sign, impl = bool(cfg['hc']), cfg['sign'], cfg['impl']
     isign = '+' if sign == '-' else '-'
     kw = {'flags': ('FFTW_ESTIMATE',)} if cfg.get('effort') == 'estimate' else {}
     tol = TOL_DFT[_prec(dt)]
-    ctx0 = 'shape=%s axes=%s dtype=%s%s' % (list(shape), axes, dt,
+    ctx0 = 'shape=%s axes=%s dtype=%s%s' % (list(shape), ax_arg, dt,
                                            ' flags=FFTW_ESTIMATE' if kw else '')
     try:
         sp, mk_fwd, mk_inv = _dft_ops(cfg)
@@ -418,7 +453,7 @@ def _run_dft(cfg):
         for k in sorted(few):
             _call(acc, o, A[k], B[k], tol, sym, '%s input#%d' % (ctx0, k),
                   'ip' if k == 1 else 'oop', kw if o.op.impl == 'pyfftw' else None)
-    par = ''.join('o' if shape[a] % 2 else 'e' for a in axes)
+    par = ''.join('o' if shape[a] % 2 else 'e' for a in axes) + ':' + _order_tag(ax_arg, axes)
     return acc.result('dft:%s:%s:%s:%s:%s:%s' % (impl, 'r' if _is_real(dt) else 'c', int(hc), sign,
                                                  par, cfg.get('effort', 'd')))
 
@@ -429,7 +464,8 @@ HIST_ACTIONS = 'sonp'
 def _run_hist(cfg):
     """Call histories on the FFTW back-end, starting from empty wisdom."""
     acc = Acc()
-    shape, axes, dt = tuple(cfg['shape']), list(cfg['axes']), cfg['dtype']
+    shape, dt = tuple(cfg['shape']), cfg['dtype']
+    ax_arg, axes = _axes(cfg)
     hc, sign = bool(cfg['hc']), cfg['sign']
     tol = TOL_DFT[_prec(dt)]
     sp, mk_fwd, mk_inv = _dft_ops(cfg)
@@ -444,7 +480,7 @@ def _run_hist(cfg):
     except Exception as e:
         return acc.result('hist:build')
     for i, act in enumerate(cfg['hist']):
-        ctx = 'shape=%s axes=%s dtype=%s history=%s step=%d' % (list(shape), axes, dt,
+        ctx = 'shape=%s axes=%s dtype=%s history=%s step=%d' % (list(shape), ax_arg, dt,
                                                                  cfg['hist'], i)
         if act == 'n':
             cur = mk()
@@ -469,7 +505,7 @@ def _ft_site(cls, impl, dtype, hc, sign, shifts, tmp):
         sh = 'shift=not-all'
     return '%s[%s,%s,%s,sign%s,%s,%s]' % (cls, impl, 'real' if _is_real(dtype) else 'complex',
                                           'halfcomplex' if hc else 'full', sign, sh,
-                                          'tmp' if tmp != 'none' else 'notmp')
+                                          'tmp' if tmp not in ('none', 'create-clear') else 'notmp')
 
 
 def _ft_space(shape, dtype):
@@ -478,32 +514,62 @@ def _ft_space(shape, dtype):
 
 
 def _ft_build(cfg):
-    shape, axes, dt = tuple(cfg['shape']), list(cfg['axes']), cfg['dtype']
+    shape, dt = tuple(cfg['shape']), cfg['dtype']
+    ax_arg, axes = _axes(cfg)
     hc, sign, impl = bool(cfg['hc']), cfg['sign'], cfg['impl']
     shifts, tmp = [bool(s) for s in cfg['shift']], cfg['tmp']
     sp = _ft_space(shape, dt)
-    kwargs = dict(impl=impl, axes=axes, sign=sign, halfcomplex=hc, shift=shifts)
+    kwargs = dict(impl=impl, axes=ax_arg, sign=sign, halfcomplex=hc, shift=shifts)
     if tmp == 'ctor':
-        ran = ft_utils.reciprocal_space(sp, axes=axes, halfcomplex=hc, shift=shifts)
+        ran = ft_utils.reciprocal_space(sp, axes=ax_arg, halfcomplex=hc, shift=shifts)
         kwargs['tmp_r'] = np.full(shape, np.nan, dtype=dt)
         kwargs['tmp_f'] = np.full(ran.shape, np.nan, dtype=ran.dtype)
     ft = FourierTransform(sp, **kwargs)
-    if tmp == 'create':
+    if tmp in ('create', 'create-both', 'create-clear'):
         ft.create_temporaries(r=True, f=True)
+    elif tmp == 'create-r':
+        ft.create_temporaries(r=True, f=False)
+    elif tmp == 'create-f':
+        ft.create_temporaries(r=False, f=True)
+    if tmp == 'create-clear':
+        ft.clear_temporaries()
     return sp, ft
+
+
+def _ft_inverse(ft, cfg):
+    """``ft.inverse`` in the temporaries life cycle of the state.
+
+    tmp = none / ctor / create / create-r / create-f : the inverse inherits what the forward
+          operator holds (the ``.inverse`` property hands tmp_r, tmp_f over);
+    create-inv   : create_temporaries() is called on the inverse itself, the forward has none;
+    create-both  : on the forward operator and then again on the inverse ("Existing temporaries
+                   are overridden");
+    create-clear : created on the forward operator and cleared again before use; on the inverse
+                   created and cleared as well.
+    """
+    inv = ft.inverse
+    tmp = cfg['tmp']
+    if tmp in ('create-inv', 'create-both', 'create-clear'):
+        inv.create_temporaries(r=True, f=True)
+    if tmp == 'create-clear':
+        inv.clear_temporaries()
+    return inv
 
 
 def _run_ft(cfg):
     acc = Acc()
-    shape, axes, dt = tuple(cfg['shape']), list(cfg['axes']), cfg['dtype']
+    shape, dt = tuple(cfg['shape']), cfg['dtype']
+    ax_arg, axes = _axes(cfg)
     hc, sign, impl = bool(cfg['hc']), cfg['sign'], cfg['impl']
     shifts, tmp = [bool(s) for s in cfg['shift']], cfg['tmp']
     isign = '+' if sign == '-' else '-'
     tol = TOL_FT[_prec(dt)]
-    fsite = _ft_site('FourierTransform', impl, dt, hc, sign, shifts, tmp)
+    # the site names say whether THAT operator works on temporaries
+    fsite = _ft_site('FourierTransform', impl, dt, hc, sign, shifts,
+                     'none' if tmp == 'create-inv' else tmp)
     isite = _ft_site('FourierTransformInverse', impl, dt, hc, isign, shifts, tmp)
     ctx0 = 'domain=uniform_discr(%s,%s,%s,%s) axes=%s shift=%s tmp=%s' % (
-        list(LO[:len(shape)]), list(HI[:len(shape)]), list(shape), dt, axes, shifts, tmp)
+        list(LO[:len(shape)]), list(HI[:len(shape)]), list(shape), dt, ax_arg, shifts, tmp)
     try:
         sp, ft = _ft_build(cfg)
         fwd = Op(ft, fsite)
@@ -511,7 +577,7 @@ def _run_ft(cfg):
         acc.add(fsite, 'raises:' + type(e).__name__, 'constructor %s: %s' % (ctx0, _exc(e)))
         return acc.result('ft:build')
     try:
-        inv = Op(ft.inverse, isite, note='(ft.inverse)')
+        inv = Op(_ft_inverse(ft, cfg), isite, note='(ft.inverse)')
     except Exception as e:
         acc.add(fsite, 'raises:' + type(e).__name__, '.inverse %s: %s' % (ctx0, _exc(e)))
         return acc.result('ft:build-inverse')
@@ -567,7 +633,9 @@ def _run_ft(cfg):
             acc.add(isite, 'derived_operator_has_other_type_or_spaces',
                     '%s: .inverse of the inverse is %r' % (ctx0, ii))
         else:
-            derived.append((Op(ii, fsite, note='(ft.inverse.inverse)'), X, Y,
+            # (it inherits whatever temporaries the inverse holds)
+            derived.append((Op(ii, _ft_site('FourierTransform', impl, dt, hc, sign, shifts, tmp),
+                               note='(ft.inverse.inverse)'), X, Y,
                             'differs_from_documented_formula'))
         derived.append((Op(ft.inverse, isite, note='(ft.inverse, requested again)'), Y, X,
                         'inverse_does_not_recover_input'))
@@ -585,7 +653,7 @@ def _run_ft(cfg):
         try:
             sp2, ft2 = _ft_build(cfg)
             fresh = [(Op(ft2, fsite), X, Y, 'differs_from_documented_formula'),
-                     (Op(ft2.inverse, isite), Y, X, 'inverse_does_not_recover_input')]
+                     (Op(_ft_inverse(ft2, cfg), isite), Y, X, 'inverse_does_not_recover_input')]
         except Exception as e:
             acc.add(fsite, 'raises:' + type(e).__name__, 'constructor %s: %s' % (ctx0, _exc(e)))
             fresh = []
@@ -606,7 +674,7 @@ def _run_ft(cfg):
                         _call(acc, o, A[k], B[k], tol, sym, '%s input#%d' % (ctx0, k),
                               'ip' if k == 1 else 'oop')
     par = ''.join(('o' if shape[a] % 2 else 'e') + ('S' if s else 'n')
-                  for a, s in zip(axes, shifts))
+                  for a, s in zip(axes, shifts)) + ':' + _order_tag(ax_arg, axes)
     return acc.result('ft:%s:%s:%s:%s:%s:%s' % (impl, 'r' if _is_real(dt) else 'c', int(hc), sign,
                                                 par, tmp))
 
@@ -620,23 +688,24 @@ def _run_grid(cfg):
     2 * M[i] - 2 (even) in the halved axis.
     """
     acc = Acc()
-    shape, axes = tuple(cfg['shape']), list(cfg['axes'])
+    shape = tuple(cfg['shape'])
+    ax_given, axes = _axes(cfg)
     shifts, hc, form = [bool(t) for t in cfg['shift']], bool(cfg['hc']), cfg['form']
     nd = len(shape)
     site = 'reciprocal_grid/realspace_grid[%s]' % ('halfcomplex' if hc else 'full')
     ctx0 = 'grid=uniform_discr(%s,%s,%s).grid axes=%s shift=%s halfcomplex=%s args=%s' % (
-        list(LO[:nd]), list(HI[:nd]), list(shape), axes, shifts, hc, form)
+        list(LO[:nd]), list(HI[:nd]), list(shape), ax_given, shifts, hc, form)
     grid = odl.uniform_discr(list(LO[:nd]), list(HI[:nd]), shape).grid
     # the same request written with the documented argument forms
     #   axes : "int or sequence of ints ... None means all axes"
     #   shift : "bool or sequence of bools"
     if form == 'scalar':
-        ax_arg = None if len(axes) == nd else axes[0]
+        ax_arg = None if len(axes) == nd else ax_given[0]
         sh_arg = shifts[0]
     elif form == 'tuple':
-        ax_arg, sh_arg = tuple(axes), tuple(shifts)
+        ax_arg, sh_arg = tuple(ax_given), tuple(shifts)
     else:
-        ax_arg, sh_arg = axes, shifts
+        ax_arg, sh_arg = ax_given, shifts
     try:
         rg = ft_utils.reciprocal_grid(grid, shift=sh_arg, axes=ax_arg, halfcomplex=hc)
         acc.evals += 1
@@ -682,20 +751,22 @@ def _run_grid(cfg):
                         'got %s' % (ctx0, ax, _fmt(want), _fmt(got)))
     pat = ''.join(('o' if shape[a] % 2 else 'e') + ('S' if t else 'n')
                   for a, t in zip(axes, shifts))
-    return acc.result('grid:%d:%s:%s:%s' % (nd, int(hc), pat, form))
+    return acc.result('grid:%d:%s:%s:%s:%s' % (nd, int(hc), pat, form,
+                                               _order_tag(ax_given, axes)))
 
 
 def _run_gauss(cfg):
     acc = Acc()
     dt, hc, sign, impl = cfg['dtype'], bool(cfg['hc']), cfg['sign'], cfg['impl']
-    nd, axes, shifts = cfg['ndim'], list(cfg['axes']), [bool(s) for s in cfg['shift']]
+    nd, shifts = cfg['ndim'], [bool(s) for s in cfg['shift']]
+    ax_arg, axes = _axes(cfg)
     ns = (GAUSS_N if nd == 1 else GAUSS_N2)[cfg['parity']]
     site = _ft_site('FourierTransform', impl, dt, hc, sign, shifts, 'none')
     errs = []
     for n in ns:
         sp = odl.uniform_discr([-10.0] * nd, [10.0] * nd, [n] * nd, dtype=dt)
         try:
-            ft = FourierTransform(sp, impl=impl, axes=axes, sign=sign, halfcomplex=hc,
+            ft = FourierTransform(sp, impl=impl, axes=ax_arg, sign=sign, halfcomplex=hc,
                                   shift=shifts)
             mesh = sp.meshgrid
             f = np.ones(sp.shape)
@@ -722,7 +793,7 @@ def _run_gauss(cfg):
             acc.add(site, 'gaussian_not_converging',
                     'exp(-|x-c|^2/2), c=%s on [-10,10]^%d, axes=%s shift=%s dtype=%s: max error '
                     'vs analytic transform for n=%s is %s (must at least halve per doubling)'
-                    % (list(GAUSS_C[:nd]), nd, axes, shifts, dt, list(ns),
+                    % (list(GAUSS_C[:nd]), nd, ax_arg, shifts, dt, list(ns),
                        ['%.3g' % e for e in errs]))
             break
     return acc.result('gauss:%d:%s:%s:%s:%s' % (nd, impl, int(hc), sign, cfg['parity']),
@@ -977,8 +1048,8 @@ def _cfg_dft(tier):
     impls = ['numpy'] + (['pyfftw'] if HAVE_FFTW else [])
     cfgs = []
 
-    def emit(shape, dtypes, estimate):
-        for axes in _subsets(len(shape)):
+    def emit(shape, dtypes, estimate, orders=False):
+        for axes in (_orders(len(shape)) if orders else _subsets(len(shape))):
             for dt, hc, sign in _variants(dtypes):
                 for impl in impls:
                     c = {'kind': 'dft', 'shape': shape, 'axes': axes, 'dtype': dt,
@@ -996,6 +1067,9 @@ def _cfg_dft(tier):
     if not thorough:
         for shape in MIXED3:
             emit(shape, DBL, False)
+    # axes in every order / counted from the end (the halved axis is the last one GIVEN)
+    for shape in [[2], [5], [2, 3], [4, 5], [5, 3], [4, 4]] + [list(t) for t in MIXED3]:
+        emit(shape, DTYPES if (thorough and len(shape) < 3) else DBL, False, orders=True)
     return cfgs
 
 
@@ -1028,8 +1102,8 @@ def _cfg_ft(tier):
     impls = ['numpy'] + (['pyfftw'] if HAVE_FFTW else [])
     cfgs = []
 
-    def emit(shape, dtypes, tmps):
-        for axes in _subsets(len(shape)):
+    def emit(shape, dtypes, tmps, orders=False):
+        for axes in (_orders(len(shape)) if orders else _subsets(len(shape))):
             for shifts in itertools.product((1, 0), repeat=len(axes)):
                 for dt, hc, sign in _variants(dtypes):
                     if hc and not shifts[-1]:
@@ -1041,10 +1115,13 @@ def _cfg_ft(tier):
                             cfgs.append({'kind': 'ft', 'shape': shape, 'axes': axes,
                                          'shift': list(shifts), 'dtype': dt, 'hc': int(hc),
                                          'sign': sign, 'impl': impl, 'tmp': tmp})
+    # temporaries life cycle on both operators (see _ft_inverse)
+    cycle = ('create-inv', 'create-both', 'create-clear')
     if thorough:
         for shape in _shapes((1, 2), SIZES):
             ctor = len(shape) == 1 or shape in ([2, 3], [4, 5], [5, 3], [4, 4])
-            emit(shape, DTYPES, ('none', 'create', 'ctor') if ctor else ('none', 'create'))
+            emit(shape, DTYPES, ('none', 'create', 'ctor') + cycle if ctor
+                 else ('none', 'create', 'create-inv'))
         # 3-d (the per-axis factors are separable, see _core3): {2,3}^3, two shapes of {4,5}^3
         # showing both parities in every axis position, four mixed shapes; double precision
         for shape in _shapes((3,), (2, 3)):
@@ -1055,14 +1132,21 @@ def _cfg_ft(tier):
             emit(shape, DBL, ('none', 'create') if shape in MIXED3 else ('none',))
     else:
         for shape in _shapes((1,), SIZES):
-            emit(shape, DTYPES, ('none', 'create'))
+            emit(shape, DTYPES, ('none', 'create') + cycle)
         for shape in _shapes((2,), SIZES):
             more = shape in ([2, 3], [4, 5], [5, 3], [4, 4])
-            emit(shape, DBL, ('none', 'create') if more else ('none',))
+            emit(shape, DBL, ('none', 'create', 'create-inv', 'create-both') if more
+                 else ('none',))
             if shape in ([3, 4], [5, 2]):
                 emit(shape, ('float32', 'complex64'), ('none',))
         for shape in ([2, 3, 2], [5, 2, 4]):
             emit(shape, DBL, ('none',))
+    # axes in every order / counted from the end, with per-axis shifts that differ
+    for shape in ([3], [4], [2, 3], [4, 5], [5, 3], [4, 4], [3, 4], [5, 2]):
+        emit(shape, DTYPES if thorough else DBL, ('none', 'create') if thorough else ('none',),
+             orders=True)
+    for shape in (MIXED3_T if thorough else ([5, 2, 4],)):
+        emit(list(shape), DBL, ('none',), orders=True)
     return cfgs
 
 
@@ -1075,11 +1159,13 @@ def _cfg_grid(tier):
     shapes = list(_shapes((1, 2), SIZES))
     shapes += list(_shapes((3,), SIZES if thorough else (2, 3))) + ([] if thorough else list(MIXED3))
     for shape in shapes:
-        for axes in _subsets(len(shape)):
+        full = thorough or max(shape) <= 3 or shape in MIXED3
+        for axes in list(_subsets(len(shape))) + _orders(len(shape), full=full):
             for shifts in itertools.product((1, 0), repeat=len(axes)):
                 for hc in (0, 1):
                     forms = ['list', 'tuple']
-                    if len(set(shifts)) == 1 and len(axes) in (1, len(shape)):
+                    if (len(set(shifts)) == 1 and len(axes) in (1, len(shape))
+                            and axes == sorted(axes) and (len(axes) == 1 or min(axes) >= 0)):
                         forms.append('scalar')
                     for form in forms:
                         cfgs.append({'kind': 'grid', 'shape': shape, 'axes': axes,
@@ -1259,13 +1345,23 @@ def meta(tier):
             'ft': 'same sizes (3-d: ' + ('{2,3}^3, [4,5,4], [5,4,5] and 4 mixed shapes, double '
                                           'precision' if thorough else '2 shapes')
                   + ') x per-axis shift x '
-                  'temporaries ' + ("{none, create_temporaries, ctor tmp_r/tmp_f}" if thorough
-                                    else '{none, create_temporaries}')
+                  'temporaries (see temporaries_life_cycle)'
                   + ' x {operator, .inverse, .inverse again, .inverse.inverse, init_fftw_plan / '
                     'clear_fftw_plan on fresh and used operators}',
             'grid': 'reciprocal_grid / realspace_grid: sizes {2,3,4,5}^ndim (ndim 1-2; 3-d: '
                     + ('all' if thorough else '{2,3}^3 + 2 mixed shapes') + ') x axes subsets x '
-                    'per-axis shift x halfcomplex x argument form {list, tuple, scalar / None}',
+                    'per-axis shift x halfcomplex x argument form {list, tuple, scalar / None}; '
+                    'axes also in every order (permutations of every subset) and counted from '
+                    'the end, with per-axis shifts that differ',
+            'axes_orders': 'dft / ft: on a subset of the shapes (1-d [2],[5] / [3],[4]; 2-d '
+                           '[2,3],[4,5],[5,3],[4,4](,[3,4],[5,2]); 3-d mixed shapes) the axes are '
+                           'also given as every non-identity permutation of every subset and in '
+                           'negative spelling; the halved axis / the per-axis shifts follow the '
+                           'GIVEN order',
+            'temporaries_life_cycle': 'none, create (on the forward operator, inherited through '
+                                      '.inverse), create-inv (create_temporaries on the inverse '
+                                      'itself), create-both, create-clear (clear_temporaries '
+                                      'before use)' + (', ctor' if thorough else ''),
             'gauss': {'n_1d': GAUSS_N, 'n_2d': GAUSS_N2 if thorough else None,
                       'centre': list(GAUSS_C)},
             'wt': {'wavelets': 'all %d discrete PyWavelets wavelets' % len(
